@@ -2,6 +2,7 @@ package checks
 
 import (
 	"fmt"
+	"os"
 	"time"
 
 	"cosmossdk.io/math"
@@ -11,6 +12,7 @@ import (
 	"github.com/ethereum/go-ethereum/core/types/goattypes"
 	bitcointypes "github.com/goatnetwork/goat/x/bitcoin/types"
 	goatxtypes "github.com/goatnetwork/goat/x/goat/types"
+	lockingtypes "github.com/goatnetwork/goat/x/locking/types"
 	relayertypes "github.com/goatnetwork/goat/x/relayer/types"
 
 	"verif/harness/vc"
@@ -483,16 +485,76 @@ func btcTip(ch *world.Chain) (uint64, error) {
 	return r.Height, nil
 }
 
+// c08Solo is the single-node part of clause (a): long histories of well-behaved locking traffic (the requests a correct
+// locking contract can emit, which does not know about slashing: unlocks above what is left, unlocks of tokens that
+// were slashed away, claims and locks for jailed or exited validators, dust) under heavy punishment. Whatever state
+// this reaches, the honest proposal must be accepted and its block message must succeed.
+func c08Solo(c *vc.Ctx, idx int) {
+	if os.Getenv("VERIF_SANITIZER_BUILD") != "" {
+		c.Count("solo_histories_left_to_the_plain_build", 1)
+		return
+	}
+	r := world.NewRand(c.Seed, "c08solo", idx)
+	nv := 2 + r.Intn(4)
+	step := time.Duration(2+r.Intn(3)) * time.Second
+	cfg := lockCfg{Label: "c08solo", NVals: nv, MaxVals: int64(1 + r.Intn(nv+1)), Blocks: c.Pick(70, 160), Protect0: true, JumpTime: idx%2 == 0, TargetPunished: true, EvidenceAges: idx%3 == 0, Step: step, TimeEdges: true,
+		W: lockWeights{Create: 8, Lock: 45, Unlock: 55, Claim: 20, Grant: 6, Weight: 6, Threshold: 8, Absent: 35, Evidence: 8, DustLock: 12, BigUnlock: 25},
+		Params: func(p *lockingtypes.Params) {
+			p.SignedBlocksWindow = int64(5 + r.Intn(5))
+			p.MaxMissedPerWindow = int64(2 + r.Intn(2))
+			p.DowntimeJailDuration = 20 * time.Second
+			p.UnlockDuration = time.Duration(1+r.Intn(5)) * step
+			p.ExitingDuration = p.UnlockDuration + time.Duration(r.Intn(4))*step
+			if idx%4 == 3 {
+				p.SlashFractionDowntime = math.LegacyNewDecWithPrec(5, 1) // half of everything, dust goes completely
+				p.SlashFractionDoubleSign = math.LegacyOneDec()
+			}
+		}}
+	h, err := newLockHist(c, cfg, idx)
+	if err != nil {
+		c.Inconclusive("setup: %v", err)
+		return
+	}
+	defer h.close()
+	h.crashFn = func(cr *world.ErrCrash) {
+		c.Violation("block processing failed on an honest proposal: "+errClass(cr.Err.Error()), cr.Error(), h.replay())
+	}
+	h.rejectFn = func(rj *world.ErrRejected) {
+		c.Violation("honest proposal rejected", rj.Error(), h.replay())
+	}
+	for b := 0; b < cfg.Blocks && !h.failed; b++ {
+		if !h.step() {
+			break
+		}
+		c.Eval(1)
+		if !h.blk.BlockOK {
+			c.Violation("honest block message failed when finalised: "+failClass(h.blk.Resp.TxResults[0].Log), fmt.Sprintf("height %d: %s", h.blk.Height, h.blk.Resp.TxResults[0].Log), h.replay())
+			break
+		}
+		c.Count("honest_block_messages_succeeded", 1)
+		c.Nontrivial("solo nsys=%d unlocks=%d punished=%v", nsys(h.blk.Payload), len(h.ops.unlocks), len(h.ops.Evidence) > 0 || len(h.ops.Absent) > 0)
+	}
+	c.Sample(map[string]any{"solo": true, "validators": nv, "blocks": h.ch.Height, "last_ops": lastN(h.opsLog, 3)})
+}
+
 func init() {
 	vc.Register(&vc.Check{
 		ID: "C08", Title: "Honest proposals are always accepted; accepted proposals are well-formed", Level: "exploration",
 		Rule: "one case = one cluster history (2..4 validators each running a node, CometBFT proposer rotation, 24/70 blocks) on a well-behaved execution layer: random locking requests (unlock bursts, claims >16, maturing unlocks), withdrawals, elections every 25 s, " +
 			"and relayer transactions gossiped into every mempool (valid votes, invalid votes, nonce gaps, expiring timeouts, non-proposer senders, malformed deposits). (a) every honest proposal must have <= 16 txs, be ACCEPTed by every node and its block message must succeed; " +
 			"(b) every third height the honest proposal is mutated by 28 operators (block message missing/second/duplicated/accompanied/bundled in a later transaction, foreign message, wrong parent/number/beacon root/author/recipient, system txs dropped/duplicated/reordered/altered/extra/miscounted, 0 or 2 gas requests, unknown-type or empty requests, future timestamp, nil payload, engine INVALID/SYNCING/ACCEPTED/error) with block hashes recomputed so that only the consensus-side checks can object; every node must refuse each; " +
-			"(c) the same workload runs on the race-detector build with 0-4 ms engine jitter; every distinct race report with a goat frame is a violation. Non-trivial = every honest proposal and every mutant; distinct = (operator, system txs, txs).",
+			"(a') 12/120 further single-node histories (70/160 blocks) of well-behaved locking traffic under heavy punishment (short windows, half/all slashed in every fourth): unlocks above what slashing left, of tokens slashed away, dust, claims and locks for jailed or exited validators; honest proposal accepted and block message succeeds in every block; " +
+			"(c) the cluster workload runs on the race-detector build with 0-4 ms engine jitter; every distinct race report with a goat frame is a violation. Non-trivial = every honest proposal and every mutant; distinct = (operator, system txs, txs).",
 		Assume: []string{"the fake execution client validates block hash consistency and known parents only", "race coverage is what the executed interleavings exhibit"},
-		Cases:  func(tier string) int { return map[string]int{"quick": 9, "thorough": 90}[tier] },
-		Run:    func(c *vc.Ctx, i int) { c08History(c, i) },
+		Cases:  func(tier string) int { return map[string]int{"quick": 9 + 12, "thorough": 90 + 120}[tier] },
+		Run: func(c *vc.Ctx, i int) {
+			nCluster := map[string]int{"quick": 9, "thorough": 90}[c.Tier]
+			if i < nCluster {
+				c08History(c, i)
+			} else {
+				c08Solo(c, i-nCluster)
+			}
+		},
 	})
 }
 
